@@ -881,4 +881,146 @@ def pol_local_frame(ctx):
     return res
 
 
-RULES = [pol_local_frame, coating_media, no_stale, pol_frames, fresnel, rotation_law, retarder, projectors, aoi]
+def pair_mean(ctx):
+    """'the unpolarized intensity equals the mean of the intensities of any
+    two orthogonal input states': both branches of update_intensity apply the
+    same factor structure, i <- i * T, with T = |P E|^2 for a polarized state
+    and T = (|P Ex|^2 + |P Ey|^2) / 2 for the unpolarized one, Ex / Ey the
+    unit fields along the local x and y axes."""
+    P = ctx.P
+    res = Result('PAIR-MEAN', 'update_intensity: polarized i * |P E|^2, '
+                 'unpolarized i * (|P Ex|^2 + |P Ey|^2) / 2 with the same '
+                 'prefactor (launch intensity, apertures, absorption)')
+    f = P.func('PolarizedRays.update_intensity')
+    res.saw(f)
+    top = [st for st in f.node.body if isinstance(st, ast.If)]
+    if len(top) != 1 or 'is_polarized' not in unparse(top[0].test):
+        raise AnalysisError('update_intensity: polarized / unpolarized '
+                            'branches not found')
+    arms = {'polarized': top[0].body, 'unpolarized': top[0].orelse}
+    if isinstance(top[0].test, ast.UnaryOp):
+        arms = {'polarized': top[0].orelse, 'unpolarized': top[0].body}
+
+    def run(body):
+        defs = {}
+
+        def inline(call, ev):
+            fn = unparse(call.func)
+            if fn == 'np.sum' and call.args:
+                inner = call.args[0]
+                if isinstance(inner, ast.BinOp) and isinstance(
+                        inner.op, ast.Pow) and const_of(inner.right) == 2 \
+                        and isinstance(inner.left, ast.Call) and \
+                        unparse(inner.left.func) == 'np.abs':
+                    arg = inner.left.args[0]
+                    src = defs.get(unparse(arg), unparse(arg))
+                    return A('S<' + src + '>')
+            return None
+        ev = Ev(inline=inline)
+        out = None
+        for st in body:
+            if isinstance(st, ast.Assign) and isinstance(st.targets[0],
+                                                         ast.Name):
+                v = st.value
+                nm = st.targets[0].id
+                if isinstance(v, ast.Call):
+                    fn = unparse(v.func)
+                    if fn == 'PolarizationState':
+                        kw = {k.arg: unparse(k.value) for k in v.keywords}
+                        defs[nm] = 'STATE(' + ','.join(
+                            f'{k}={kw[k]}' for k in sorted(kw)) + ')'
+                        continue
+                    if fn in ('self._get_3d_electric_field',
+                              'self.get_output_field') and len(v.args) == 1:
+                        a0 = unparse(v.args[0])
+                        defs[nm] = fn.split('.')[-1] + '(' + \
+                            defs.get(a0, a0) + ')'
+                        continue
+            if isinstance(st, ast.Assign) and \
+                    unparse(st.targets[0]) == 'self.i':
+                out = ev.ev(st.value)
+        return out
+    sx = ('STATE(Ex=1.0,Ey=0.0,is_polarized=True,phase_x=0.0,phase_y=0.0)')
+    sy = ('STATE(Ex=0.0,Ey=1.0,is_polarized=True,phase_x=0.0,phase_y=0.0)')
+
+    def S(state):
+        return A('S<get_output_field(_get_3d_electric_field(' + state + '))>')
+    try:
+        pol = run(arms['polarized'])
+        unp = run(arms['unpolarized'])
+    except Inconclusive as e:
+        raise AnalysisError(f'update_intensity: {e}')
+    i = A('self.i')
+    ok_p = isinstance(pol, Rat) and rat_eq(pol, i * S('state'))
+    ok_u = isinstance(unp, Rat) and rat_eq(unp, i * (S(sx) + S(sy)) / C(2))
+    if ok_p:
+        res.ok('polarized: i <- i |P E(state)|^2')
+    else:
+        res.fail(ctx.finding('PAIR-MEAN', f, f.node,
+                             f'polarized branch stores {pol}, not the scalar '
+                             f'intensity times |P E|^2',
+                             construct='polarized branch'))
+    if ok_u:
+        res.ok('unpolarized: i <- i (|P Ex|^2 + |P Ey|^2) / 2, unit fields '
+               'along local x and y')
+    else:
+        res.fail(ctx.finding(
+            'PAIR-MEAN', f, f.node,
+            f'unpolarized branch stores {unp}: not the mean over the unit x '
+            f'and y states with the prefactor of the polarized branch '
+            f'(the mean-of-two-orthogonal-states identity fails by that '
+            f'factor)', construct='branch normalisation'))
+    return res
+
+
+def pol_update_once(ctx):
+    """every coating interaction updates the ray matrix exactly once (the
+    s-p-k frame follows the ray through every surface): Surface._interact
+    delegates to coating.interact -> transmit / reflect, so each concrete
+    transmit / reflect must call rays.update once on every path."""
+    from ..paths import paths, call_attr
+    P = ctx.P
+    res = Result('POL-UPDATE-ONCE', 'every coating transmit / reflect calls '
+                 'rays.update exactly once on every path')
+    bi = P.func('BaseCoating.interact')
+    res.saw(bi)
+    n = 0
+    for cn in sorted(P.classes):
+        if 'BaseCoating' not in P.mro(cn):
+            continue
+        for mn in ('transmit', 'reflect'):
+            m = P.classes[cn].methods.get(mn)
+            if m is None:
+                continue
+            if not any(not (isinstance(st, (ast.Pass, ast.Expr)) and (
+                    isinstance(st, ast.Pass) or
+                    isinstance(st.value, ast.Constant)))
+                    for st in m.node.body):
+                continue            # abstract: docstring / pass only
+            res.saw(m)
+            n += 1
+            bad = None
+            for p_ in paths(m, loop_iters=(1,)):
+                ups = [e for e in p_.events if e.kind == 'call' and
+                       call_attr(e) == 'update' and
+                       unparse(e.node.func).startswith('rays.')]
+                if len(ups) != 1:
+                    bad = len(ups)
+                    break
+            if bad is None:
+                res.ok(f'{m.qual}: one rays.update per path')
+            else:
+                res.fail(ctx.finding(
+                    'POL-UPDATE-ONCE', m, m.node,
+                    f'{m.qual} calls rays.update {bad} times: behind such a '
+                    f'coating the s-p-k frame of polarized rays is not '
+                    f'rotated with the ray (field no longer transverse) or '
+                    f'rotated twice',
+                    construct='no polarization update' if bad == 0
+                    else 'repeated polarization update'))
+    if n < 4:
+        raise AnalysisError(f'POL-UPDATE-ONCE: only {n} coating methods found')
+    return res
+
+
+RULES = [pair_mean, pol_update_once, pol_local_frame, coating_media, no_stale, pol_frames, fresnel, rotation_law, retarder, projectors, aoi]
